@@ -140,6 +140,10 @@ def compare(got, spec, axioms=(), pc=None, nan=True):
     """(status, detail) of a float lane `got` against its definition `spec` (both terms)"""
     if got is spec:
         return R.PROVED, 'term identical to the definition'
+    if got.w == 64:
+        nw = L.narrowing(got, 64)
+        if nw is not None and L.narrowing(spec, 64) is None:
+            return R.REFUTED, 'the 64-bit result passes through a %d-bit float (%s), the definition does not: float accuracy only, whatever the formula' % (nw.w, tm.show(nw, 3))
     pc = pc or P.PCtx()
     g2, s2 = lift_bool_mul(got), lift_bool_mul(spec)
     try:
